@@ -12,7 +12,7 @@ use crate::buildprog::{gprogram, run, state, Op, Outcome, Program};
 use crate::chars::is_valid_type;
 use crate::engine::{guard, Random, Section, Stats};
 use crate::fault::{inject, FaultCase};
-use crate::model::{self, render, Obs};
+use crate::model::{self, Obs};
 use crate::props::c01::gfault;
 use crate::props::Prop;
 use crate::shape::{apply_model, gspec, set_spec, shape_err_kind, take_log, Event, HookExpect, PartsModel, ShapeError, ShapeSpec, TestShape};
@@ -135,9 +135,25 @@ fn compare(o: &Obs, t: &str, ty: &str, m: &PartsModel, what: &str) -> Result<(),
     if !ok {
         return Err(format!("{what}: the PURL reports {o:?} but the hook left type {ty:?} and parts {m:?}"));
     }
-    let want = render(o);
-    if t != want {
-        return Err(format!("{what}: prints {t:?} but its accessors render as {want:?}"));
+    // "what the PURL prints": the same string as a PURL with a built-in type parameter and the same
+    // parts prints (the shape of that string as such is C03's business, not C14's)
+    let f = crate::props::c03::Fields {
+        ty: o.ty.clone(),
+        typed: false,
+        ns: o.ns.clone().unwrap_or_default(),
+        name: o.name.clone(),
+        version: o.version.clone().unwrap_or_default(),
+        quals: o.quals.clone(),
+        subpath: o.subpath.clone().unwrap_or_default(),
+    };
+    if let Ok(Some(reference)) = crate::props::c03::build_fields::<crate::api::IStr>(&f) {
+        if crate::api::observe(&reference) == *o {
+            if let Ok(want) = text(&reference) {
+                if t != want {
+                    return Err(format!("{what}: prints {t:?} but a PURL with a built-in type and the same parts prints {want:?}"));
+                }
+            }
+        }
     }
     Ok(())
 }
